@@ -7,6 +7,7 @@ import (
 	"bufio"
 	"fmt"
 	"io"
+	"os"
 	"os/exec"
 	"strconv"
 	"strings"
@@ -29,6 +30,7 @@ type Solver struct {
 	in      io.WriteCloser
 	out     *bufio.Reader
 	Queries int
+	Retries int
 	Time    time.Duration
 	timeout int // ms per query
 	dead    bool
@@ -38,9 +40,9 @@ type Solver struct {
 func solverArgs(kind string, timeoutMs int) (string, []string) {
 	switch kind {
 	case "z3":
-		return "z3", []string{"-in", fmt.Sprintf("-t:%d", timeoutMs)}
+		return "z3", []string{"-in"}
 	case "z3-new":
-		return "z3-new", []string{"-in", fmt.Sprintf("-t:%d", timeoutMs)}
+		return "z3-new", []string{"-in"}
 	case "cvc5":
 		return "cvc5", []string{"--incremental", "--produce-models", "--lang=smt2", fmt.Sprintf("--tlimit-per=%d", timeoutMs)}
 	}
@@ -63,6 +65,11 @@ func NewSolver(kind string, timeoutMs int) (*Solver, error) {
 		return nil, err
 	}
 	s := &Solver{name: kind, cmd: cmd, in: in, out: bufio.NewReaderSize(out, 1<<20), timeout: timeoutMs}
+	if d := os.Getenv("ZSYM_DUMP"); d != "" {
+		if f, err := os.OpenFile(d, os.O_CREATE|os.O_WRONLY|os.O_APPEND, 0o644); err == nil {
+			s.dump = f
+		}
+	}
 	if kind == "cvc5" {
 		s.send("(set-logic ALL)\n")
 	}
@@ -107,8 +114,36 @@ func (s *Solver) Check(asserts []*Term, want []*Term) (Verdict, []uint64, string
 	}
 	start := time.Now()
 	defer func() { s.Time += time.Since(start); s.Queries++ }()
+	if s.name == "cvc5" {
+		return s.check1(asserts, want, false, 0)
+	}
+	// z3: first incrementally (push/pop, sub-millisecond for the common trivial
+	// query) under a short timeout; a query the incremental core does not finish
+	// is repeated in a fresh context ((reset)), where z3 applies its full
+	// preprocessing (array + bit-vector queries: 300 ms -> 15 ms)
+	v, vals, errs := s.check1(asserts, want, false, 250)
+	if v != Unknown || s.dead {
+		return v, vals, errs
+	}
+	s.Retries++
+	return s.check1(asserts, want, true, s.timeout)
+}
+
+func (s *Solver) check1(asserts []*Term, want []*Term, useReset bool, timeoutMs int) (Verdict, []uint64, string) {
 	var sb strings.Builder
-	sb.WriteString("(push 1)\n")
+	if useReset {
+		sb.WriteString("(reset)\n(set-option :produce-models true)\n")
+	} else {
+		sb.WriteString("(push 1)\n")
+	}
+	if timeoutMs > 0 {
+		fmt.Fprintf(&sb, "(set-option :timeout %d)\n", timeoutMs)
+	}
+	endScope := func() {
+		if !useReset {
+			s.send("(pop 1)\n")
+		}
+	}
 	done := map[int]string{}
 	names := emit(&sb, done, asserts...)
 	for _, n := range names {
@@ -149,7 +184,7 @@ func (s *Solver) Check(asserts []*Term, want []*Term) (Verdict, []uint64, string
 		}
 	}
 	if errs != "" {
-		s.send("(pop 1)\n")
+		endScope()
 		return Unknown, nil, errs
 	}
 	var vals []uint64
@@ -175,16 +210,16 @@ func (s *Solver) Check(asserts []*Term, want []*Term) (Verdict, []uint64, string
 		}
 		txt := strings.Join(lines, " ")
 		if strings.Contains(txt, "(error") {
-			s.send("(pop 1)\n")
+			endScope()
 			return Unknown, nil, txt
 		}
 		vals = parseValues(txt, len(want))
 		if vals == nil {
-			s.send("(pop 1)\n")
+			endScope()
 			return Unknown, nil, "cannot parse model: " + txt
 		}
 	}
-	s.send("(pop 1)\n")
+	endScope()
 	return verdict, vals, ""
 }
 
